@@ -86,10 +86,11 @@ func (k SettlementKeeper) tryPayout(ctx sdk.Context, tenantId uint64, utxr *type
 	}
 
 	var validRecipients []*types.Recipient = make([]*types.Recipient, 0)
-	var totalWeight uint32 = 0
+	// uint64: the sum of uint32 weights must not wrap around
+	var totalWeight uint64 = 0
 	for _, recipient := range utxr.Recipients {
 		if !recipient.Address.IsNull() {
-			totalWeight += recipient.Weight
+			totalWeight += uint64(recipient.Weight)
 			validRecipients = append(validRecipients, recipient)
 		}
 	}
@@ -111,7 +112,7 @@ func (k SettlementKeeper) tryPayout(ctx sdk.Context, tenantId uint64, utxr *type
 		if totalWeight == 0 {
 			amount.Amount = utxr.Amount.Amount.Quo(sdk.NewInt(int64(len(validRecipients))))
 		} else {
-			amount.Amount = utxr.Amount.Amount.Mul(sdk.NewInt(int64(recipient.Weight))).Quo(sdk.NewInt(int64(totalWeight)))
+			amount.Amount = utxr.Amount.Amount.Mul(sdk.NewInt(int64(recipient.Weight))).Quo(sdk.NewIntFromUint64(totalWeight))
 		}
 
 		var err error
